@@ -24,6 +24,10 @@ type Reframe struct {
 	InfoRun  int    `json:"info_run"`           // maximum run length of info frames
 	Empty    bool   `json:"empty,omitempty"`    // interleave empty data frames
 	ErrorAt  int64  `json:"error_at,omitempty"` // inject an error frame after this many data bytes (0 = never)
+	// ErrorFromEnd > 0: place the error frame this many payload bytes before the
+	// end of the server's stream (resolved with the un-reframed run's length):
+	// 12/8/4 = before the first/second/third statistics value of a pull.
+	ErrorFromEnd int64 `json:"error_from_end,omitempty"`
 	ErrorMsg string `json:"error_msg,omitempty"`
 }
 
@@ -77,6 +81,10 @@ func (c17) Generate(seed uint64, tier string, index int) any {
 	re.Empty = g.R.Intn(3) == 0
 	if g.R.Intn(5) == 0 {
 		re.ErrorAt = 1 + g.R.Int63n(vol+200)
+		if g.R.Intn(2) == 0 {
+			re.ErrorAt = 0
+			re.ErrorFromEnd = []int64{4, 8, 12, 13, 16, 20, 1, 24, 40}[g.R.Intn(9)]
+		}
 		re.ErrorMsg = fmt.Sprintf("simulated server failure #%d (disk on fire)", g.R.Intn(100000))
 	}
 	out := &C17Scenario{Sync: sc, Re: re}
@@ -327,6 +335,13 @@ func (c17) Run(t *testing.T, scenario any, job *Job, res *Result) {
 		return
 	}
 	// 2. reframed run
+	if sc.Re.ErrorFromEnd > 0 {
+		total := int64(res.Probes["last_server_payload_bytes"])
+		sc.Re.ErrorAt = total - sc.Re.ErrorFromEnd
+		if sc.Re.ErrorAt <= 0 {
+			sc.Re.ErrorAt = 1
+		}
+	}
 	m := &reframer{re: sc.Re, rng: kernel.NewRNG(sc.Re.Seed), daemon: sc.Sync.Arr == "A1" || sc.Sync.Arr == "A2"}
 	hooks := SessionHooks{Middle: m.run, MiddleCaps: [2]int{kernel.Unbounded, kernel.Unbounded}}
 	out, err := semRun(t, &sc.Sync, lay, hooks)
@@ -373,6 +388,9 @@ func (c17) Run(t *testing.T, scenario any, job *Job, res *Result) {
 			return
 		}
 		res.Probe("error_frames_surfaced", 1)
+		if sc.Re.ErrorFromEnd > 0 {
+			res.Probe("error_frames_at_stream_end_stage", 1)
+		}
 		res.NonTrivial = true
 		return
 	}
@@ -410,6 +428,7 @@ func checkServerFrames(sc *SyncScenario, s *SessionResult, res *Result, errorPat
 	}
 	off += 4 // seed
 	n := 0
+	payload := 0
 	for off < len(wire) {
 		if off+4 > len(wire) {
 			if errorPath {
@@ -432,9 +451,16 @@ func checkServerFrames(sc *SyncScenario, s *SessionResult, res *Result, errorPat
 			}
 			return fmt.Errorf("frame %d is truncated", n)
 		}
+		if tag == refproto.TagData {
+			payload += l
+		}
 		off += 4 + l
 		n++
 	}
+	if res.Probes == nil {
+		res.Probes = map[string]int{}
+	}
+	res.Probes["last_server_payload_bytes"] = payload
 	res.Probe("server_frames_checked", n)
 	if !errorPath && (sc.Arr == "A1" || sc.Arr == "A3p") {
 		ps, err := parseSenderSide(sc, s)
